@@ -11,8 +11,8 @@
                                                                labels.ParseMatcher / parse.Matcher / compat.Matcher (fallback)
     rtl <ML>          -> <printedHex> <CL> <UL> <FL>          Matchers.String / ParseMatchers / parse.Matchers / compat.Matchers
     parse <inputHex>  -> <C1> <U1> <F1> <CL> <UL> <FL>
-    match <ML> <LS>   -> <overall> <bits>                     Matchers.Matches, Matcher.Matches per matcher
-    mset <ML|ML…> <LS> -> <0|1>                               MatcherSet.Matches
+    match <ML> <LS>   -> <overall> <bits> <anch> <search>     Matchers.Matches, Matcher.Matches per matcher, regexp oracle
+    mset <ML|ML…> <LS> -> <0|1> <anch|anch…>                  MatcherSet.Matches, regexp oracle per list
 
   Oracles (documented in lib/props/C16.py):
   * `strconv.IsPrint`: the table `isPrintTab` below for the harness' rune pool
@@ -20,10 +20,22 @@
     compared only for strings inside the pool.
   * `regexp.Compile`: not modelled; the model runs with `compiles = true` and an
     implementation answer `R` is accepted where the model reaches `NewMatcher`.
-  * `regexp` matching: a derivative matcher for the fragment the harness emits.
+  * `regexp` matching — the model's parameter `fm pattern value` = "the pattern
+    matches the WHOLE value".  The spec side is Go's regexp package asked about
+    the explicitly anchored expression `^(?:pattern)$` (the harness computes it
+    from the matcher's Value, independently of `labels.NewMatcher`: token
+    `anch`), and, for the fragment below (literals, `.`, groups, alternation,
+    `* + ?`, the anchors `^` `$` anywhere), also a derivative matcher which must
+    agree with that oracle (→ DIFF regex-oracle).  Whatever expression the
+    matcher under test compiled for itself, its verdict must be the oracle's:
+    any other effective expression (not anchored, anchored at one end only,
+    wrapped conditionally, extra flags …) → PROPFAIL matches_spec, class
+    `anchoring` when the verdict equals an unanchored search (token `search`),
+    else `regex-semantics`.
 -/
 import Driver.Util
 import AM.Model.MatcherCompat
+import AM.Model.MatcherRegex
 
 namespace Driver.Matcher
 open Driver AM AM.Mt
@@ -76,37 +88,7 @@ def compilesT (_ : Str) : Bool := true
 
 /-! ### regular expressions of the generated fragment -/
 
-inductive Re where
-  | none | eps | chr (n : Nat) | any | seq (a b : Re) | alt (a b : Re) | star (a : Re)
-  deriving Inhabited
-
-def mkSeq : Re → Re → Re
-  | .none, _ => .none
-  | _, .none => .none
-  | .eps, b => b
-  | a, .eps => a
-  | a, b => .seq a b
-
-def mkAlt : Re → Re → Re
-  | .none, b => b
-  | a, .none => a
-  | a, b => .alt a b
-
-def nullable : Re → Bool
-  | .none => false | .eps => true | .chr _ => false | .any => false
-  | .seq a b => nullable a && nullable b
-  | .alt a b => nullable a || nullable b
-  | .star _ => true
-
-def deriv (n : Nat) : Re → Re
-  | .none => .none | .eps => .none
-  | .chr m => if m = n then .eps else .none
-  | .any => if n = 10 then .none else .eps
-  | .seq a b => if nullable a then mkAlt (mkSeq (deriv n a) b) (deriv n b) else mkSeq (deriv n a) b
-  | .alt a b => mkAlt (deriv n a) (deriv n b)
-  | .star a => mkSeq (deriv n a) (.star a)
-
-def matchRe (re : Re) (s : Str) : Bool := nullable (s.foldl (fun re r => deriv r.cp re) re)
+/- `Re`, `nullable`, `deriv`, `matchRe`: AM.Model.MatcherRegex (the definitions `matchRe_iff` is about). -/
 
 def isMeta (n : Nat) : Bool := [92, 46, 43, 42, 63, 40, 41, 124, 91, 93, 123, 125, 94, 36].contains n
 
@@ -153,6 +135,8 @@ partial def pAtom (s : Str) : Option (Re × Str) :=
       | some (re, c :: rest') => if c.cp = 41 then some (re, rest') else none
       | _ => none
     else if r.cp = 46 then some (.any, rest)
+    else if r.cp = 94 then some (.bol, rest)
+    else if r.cp = 36 then some (.eol, rest)
     else if r.cp = 92 then
       match rest with
       | c :: rest' => if isMeta c.cp then some (.chr c.cp, rest') else none
@@ -166,14 +150,6 @@ def parseRe (v : Str) : Option Re :=
   match pAlt v with
   | some (re, []) => some re
   | _ => none
-
-/-- "pattern fully matches value" for the fragment (`false` outside it; see `reKnown`) -/
-def fullMatch (v s : Str) : Bool :=
-  match parseRe v with
-  | some re => matchRe re s
-  | none => false
-
-def reKnown (m : Matcher) : Bool := !m.op.isRegex || (parseRe m.value).isSome
 
 /-! ### spec predicates on implementation outputs -/
 
@@ -298,42 +274,114 @@ def stepParse (inp : String) (obs : List String) : List Msg :=
 def bitStr (l : List Bool) : String :=
   if l.isEmpty then "-" else String.ofList (l.map fun b => if b then '1' else '0')
 
+/-! ### the regexp oracle -/
+
+/-- ((pattern, value), "the anchored pattern matches the value") as reported on the line -/
+abbrev Orc := List ((Str × Str) × Bool)
+
+def fmOf (t : Orc) : Str → Str → Bool := fun p v =>
+  match t.find? (fun e => decide (e.1 = (p, v))) with
+  | some e => e.2
+  | none => false
+
+def orcChars (tok : String) : List Char := if tok = "-" then [] else tok.toList
+
+def orcTable (ms : List Matcher) (ls : LabelSet) (anch : List Char) : Orc :=
+  (ms.zip anch).filterMap fun (m, c) =>
+    if m.op.isRegex ∧ (c = '1' ∨ c = '0') then some ((m.value, ls.get m.name), decide (c = '1')) else none
+
+/-- oracle characters well-formed for the list: 'x' exactly on = / != -/
+def orcShapeOK (ms : List Matcher) (cs : List Char) : Bool :=
+  cs.length = ms.length && (ms.zip cs).all fun (m, c) =>
+    if m.op.isRegex then c = '1' ∨ c = '0' ∨ c = 'E' else c = 'x'
+
+/-- the derivative matcher, where the pattern is inside its fragment, agrees with the oracle -/
+def crossCheck (ms : List Matcher) (ls : LabelSet) (anch : List Char) : List Msg :=
+  (ms.zip anch).filterMap fun (m, c) =>
+    if m.op.isRegex ∧ (c = '1' ∨ c = '0') then
+      match parseRe m.value with
+      | some re =>
+        let d := matchRe re (ls.get m.name)
+        if d = decide (c = '1') then none
+        else some (Msg.diff "regex-oracle" s!"{d}" s!"{c} pattern={hexS m.value} value={hexS (ls.get m.name)}")
+      | none => none
+    else none
+
+/-- `NewMatcher` accepted a pattern whose anchored form does not even compile -/
+def uncompilable (ms : List Matcher) (anch : List Char) : List Msg :=
+  (ms.zip anch).filterMap fun (m, c) =>
+    if m.op.isRegex ∧ c = 'E' then
+      some (Msg.propfail "matches_spec" "anchoring" s!"matcher={showM m}: accepted although ^(?:pattern)$ does not compile")
+    else none
+
+def hasCp (s : Str) (n : Nat) : Bool := s.any fun r => r.cp = n
+
+def startsWithCps (s : Str) (p : List Nat) : Bool := (s.take p.length).map (·.cp) = p ∧ s.length ≥ p.length
+
+def patternTags (ms : List Matcher) : List Msg :=
+  let rs := ms.filter (·.op.isRegex)
+  (if rs.any (fun m => hasCp m.value 94 ∨ hasCp m.value 36) then [.tag "match:pattern-anchors"] else []) ++
+  (if rs.any (fun m => startsWithCps m.value [94, 40, 63, 58] ∧ startsWithCps m.value.reverse [36, 41]) then [.tag "match:pattern-wrap-lookalike"] else []) ++
+  (if rs.any (fun m => startsWithCps m.value [94, 40, 63, 58] ∨ startsWithCps m.value.reverse [36, 41]) then [.tag "match:pattern-half-wrap"] else []) ++
+  (if rs.any (fun m => hasCp m.value 124) then [.tag "match:pattern-alternation"] else []) ++
+  (if rs.any (fun m => (parseRe m.value).isNone) then [.tag "match:regex-oracle-only"] else []) ++
+  (if rs.any (fun m => (parseRe m.value).isSome) then [.tag "match:regex-in-fragment"] else [])
+
 def stepMatch (mlTok lsTok : String) (obs : List String) : List Msg :=
   match parseML mlTok, obs with
-  | some ms, [overall, bits] =>
-    if !(ms.all reKnown) then [.tag "match:regex-outside-fragment"] else
+  | some ms, [overall, bits, anch, search] =>
     let ls := parseLS lsTok
-    let specBits := ms.map fun m => m.matchesValue fullMatch (ls.get m.name)
-    let model := matchesAll fullMatch ms ls
+    let ac := orcChars anch
+    let sc := orcChars search
+    if !(orcShapeOK ms ac) ∨ sc.length ≠ ms.length then [.diff "protocol" "oracle-shape" s!"{anch} {search}"] else
+    if ac.any (· = 'E') then uncompilable ms ac else
+    let fm := fmOf (orcTable ms ls ac)
+    let specBits := ms.map fun m => m.matchesValue fm (ls.get m.name)
+    let model := matchesAll fm ms ls
     let implBits : List Bool := if bits = "-" then [] else bits.toList.map (fun c => decide (c = '1'))
     let missing (m : Matcher) : Bool := !(ls.any fun kv => kv.1 = m.name)
-    let perM := (ms.zip (specBits.zip implBits)).filterMap fun (m, sb, ib) =>
+    let perM := (ms.zip (specBits.zip (implBits.zip sc))).filterMap fun (m, sb, ib, sch) =>
       if sb = ib then none else
-        let cls := opToString m.op ++ (if missing m then "-missing-label" else "") ++
-          (if m.op.isRegex ∧ !(missing m) then "-anchoring-or-regex" else "")
-        some (Msg.propfail "matches_spec" cls s!"matcher={showM m} labels={lsTok} impl={ib} spec={sb}")
+        let cls :=
+          if m.op.isRegex then
+            let implMatch := if m.op = .nre then !ib else ib      -- what the matcher's own regexp answered
+            if (sch = '1' ∨ sch = '0') ∧ implMatch = decide (sch = '1') then "anchoring" else "regex-semantics"
+          else opToString m.op ++ (if missing m then "-missing-label" else "")
+        some (Msg.propfail "matches_spec" cls s!"matcher={showM m} labels={lsTok} impl={ib} spec={sb} unanchored-search={sch}")
     let conj := if implBits.length = ms.length ∧ decide (overall = "1") ≠ implBits.all id then
         [Msg.propfail "matches_spec" "conjunction" s!"list={mlTok} labels={lsTok} overall={overall} bits={bits}"] else []
+    let sensitive := (ms.zip (ac.zip sc)).any fun (m, a, c) => m.op.isRegex ∧ a = '0' ∧ c = '1'
     let tags : List Msg :=
       [if model then .tag "match:true" else .tag "match:false"] ++
       (if ms.any missing then [.tag "match:missing-label"] else []) ++
-      (if ms.any (·.op.isRegex) then [.tag "match:regex"] else [])
+      (if ms.any (·.op.isRegex) then [.tag "match:regex"] else []) ++
+      (if sensitive then [.tag "match:value-contains-match-only"] else []) ++
+      (if (ms.zip ac).any (fun (m, a) => m.op.isRegex ∧ a = '1') then [.tag "match:regex-full-match"] else []) ++
+      (if ms.any (fun m => m.op.isRegex ∧ hasCp (ls.get m.name) 10) then [.tag "match:value-newline"] else []) ++
+      patternTags ms
+    crossCheck ms ls ac ++
     expectEq "match.overall" (if model then "1" else "0") overall ++ expectEq "match.bits" (bitStr specBits) bits ++ perM ++ conj ++ tags
   | _, _ => [.diff "parse" "?" mlTok]
 
 def stepMset (setTok lsTok : String) (obs : List String) : List Msg :=
   match obs with
-  | [res] =>
+  | [res, orcs] =>
     match (setTok.splitOn "|").foldr (fun t acc => match parseML t, acc with
         | some l, some ls => some (l :: ls) | _, _ => none) (some []) with
     | none => [.diff "parse" "?" setTok]
     | some sets =>
-      if !(sets.all fun ms => ms.all reKnown) then [.tag "match:regex-outside-fragment"] else
       let ls := parseLS lsTok
-      let model := matchesAny fullMatch sets ls
-      let spec := sets.any fun ms => ms.all fun m => m.matchesValue fullMatch (ls.get m.name)
-      (if decide (res = "1") ≠ spec then [Msg.propfail "matcherset_spec" "set-disjunction" s!"set={setTok} labels={lsTok} impl={res} spec={spec}"] else []) ++
-      expectEq "mset" (if model then "1" else "0") res ++ [.tag "mset:checked"]
+      let ocs := (orcs.splitOn "|").map orcChars
+      if ocs.length ≠ sets.length ∨ !((sets.zip ocs).all fun (ms, cs) => orcShapeOK ms cs) then [.diff "protocol" "oracle-shape" orcs] else
+      if ocs.any (·.any (· = 'E')) then (sets.zip ocs).flatMap fun (ms, cs) => uncompilable ms cs else
+      let fm := fmOf ((sets.zip ocs).flatMap fun (ms, cs) => orcTable ms ls cs)
+      let model := matchesAny fm sets ls
+      let spec := sets.any fun ms => ms.all fun m => m.matchesValue fm (ls.get m.name)
+      let anchorSensitive := sets.any fun ms => ms.any fun m => m.op.isRegex
+      ((sets.zip ocs).flatMap fun (ms, cs) => crossCheck ms ls cs) ++
+      (if decide (res = "1") ≠ spec then [Msg.propfail "matcherset_spec" (if anchorSensitive then "set-disjunction-or-anchoring" else "set-disjunction") s!"set={setTok} labels={lsTok} impl={res} spec={spec}"] else []) ++
+      expectEq "mset" (if model then "1" else "0") res ++ [.tag "mset:checked"] ++
+      (if anchorSensitive then [.tag "mset:regex"] else [])
   | _ => [.diff "parse" "?" setTok]
 
 def step (_ : Unit) (op obs : List String) : Unit × List Msg :=
